@@ -6,7 +6,7 @@
     [get ids slot] is the identifier of a position ("" = none); [positions st] is the independent traversal of
     all id-carrying positions outside MathML, [all_slots st] adds the ids inside MathML. *)
 From Coq Require Import String List NArith Arith Bool.
-From LC Require Import Common IdsDefs IdsProofs IdsProofs2 IdsProofs3 IdsProofs4 IdsHash IdsWitness.
+From LC Require Import Common IdsDefs IdsProofs IdsProofs2 IdsProofs3 IdsProofs4 IdsHash IdsMulti IdsWitness.
 Import ListNotations.
 Open Scope string_scope.
 Open Scope list_scope.
@@ -270,6 +270,45 @@ Theorem C13_lookups_current_for_all_histories : forall c st h ids,
   a_cache (s_ann (update c st s)) = build_cache c st (s_ids s).
 Proof. exact IdsHash.lookups_current_eq_free. Qed.
 Print Assumptions C13_lookups_current_for_all_histories.
+
+(* ---------------------------------------------------------------- several models handed to one annotator *)
+
+(* setModel ALWAYS rebuilds: list, owner and stored hash describe the model just handed over, whatever the
+   annotator held before - in particular a model (a clone, a look-alike) whose identifiers serialise to the same
+   string.  (C13_lookups_current_for_all_histories above quantifies over histories on ONE structure: its setModel
+   re-hands the same model.  The theorem after this one quantifies over histories on any number of structures.) *)
+Theorem C13_set_model_rebuilds : forall c st s,
+  a_cache (s_ann (set_model c st s)) = build_cache c st (s_ids s) /\
+  a_owner (s_ann (set_model c st s)) = a_model (s_ann s) /\
+  a_model (s_ann (set_model c st s)) = a_model (s_ann s) /\
+  a_hash (s_ann (set_model c st s)) = Some (hash_string c st (s_ids s)) /\
+  a_has_model (s_ann (set_model c st s)) = true.
+Proof. exact IdsMulti.set_model_rebuilds. Qed.
+Print Assumptions C13_set_model_rebuilds.
+
+(* for ANY history over ANY list of models [sts] - setModel(model k) for arbitrary k in any order (a model, its
+   clone, a look-alike with the same identifiers, a different model, the first again), id edits on any model, the
+   stored model being destroyed, assign*, clearAllIds, look-ups - with identifiers free of '=':
+   the list a look-up consults is the list of the model the annotator holds NOW and its items are objects of THAT
+   model ([a_owner] = [a_model]); so the look-up theorems describe its answers with st := the current structure. *)
+Theorem C13_lookups_current_for_all_histories_multi : forall c sts h idss,
+  fx_refresh c = true -> fx_hash c = true -> eq_free_all idss -> Forall mop_eq_free h ->
+  let ms := fst (mrun c sts (minit idss) h) in
+  let k := a_model (m_ann ms) in
+  a_has_model (m_ann ms) = true ->
+  let s := update c (nth_st sts k) {| s_ids := nth_ids (m_ids ms) k; s_ann := m_ann ms |} in
+  a_cache (s_ann s) = build_cache c (nth_st sts k) (nth_ids (m_ids ms) k) /\ a_owner (s_ann s) = k.
+Proof. exact IdsMulti.lookups_current_multi. Qed.
+Print Assumptions C13_lookups_current_for_all_histories_multi.
+
+Example C13_nonvacuous_multi :
+  let h := [MEdit 0 2 "x"; MEdit 1 2 "x"; MSetModel 0; MOp (OItem "x"); MSetModel 1; MOp (OItem "x")] in
+  let r := mrun cfg_fixed [st_one; st_one] (minit [ids5; ids5]) h in
+  hash_string cfg_fixed st_one (nth_ids (m_ids (fst r)) 0) = hash_string cfg_fixed st_one (nth_ids (m_ids (fst r)) 1) /\
+  a_owner (m_ann (fst r)) = 1 /\ a_model (m_ann (fst r)) = 1 /\
+  nth 5 (snd r) RNone = REntry (Some (mk_entry "x" (vis KComp 2))).
+Proof. exact IdsWitness.multi_witness. Qed.
+Print Assumptions C13_nonvacuous_multi.
 
 (* DESIGN row 21, the code before fixes/C13-hash-equivalence-ids.diff: the hash ignored mapping and connection ids *)
 Theorem C13_hash_blind_refuted :
